@@ -9,7 +9,8 @@ CONSTANTS L, Pairs, Emit
 VARIABLES par, hist, kept
 
 \* item shapes: <<kind, hasfun, obj, nan, feas>>
-Shapes == {<<"F", TRUE, 1, FALSE, TRUE>>, <<"F", TRUE, 2, FALSE, TRUE>>, <<"F", TRUE, 0, TRUE, TRUE>>,
+\* (objective 9 stands for +infinity in the user domain: a defined value, so a valid optimum when nothing finite is feasible)
+Shapes == {<<"F", TRUE, 1, FALSE, TRUE>>, <<"F", TRUE, 2, FALSE, TRUE>>, <<"F", TRUE, 0, TRUE, TRUE>>, <<"F", TRUE, 9, FALSE, TRUE>>,
            <<"F", TRUE, 1, FALSE, FALSE>>, <<"F", TRUE, 0, FALSE, FALSE>>, <<"F", FALSE, 0, TRUE, TRUE>>, <<"G", FALSE, 0, TRUE, TRUE>>}
 Item(sh, id) == [id |-> id, kind |-> sh[1], hasfun |-> sh[2], obj |-> sh[3], nan |-> sh[4], feas |-> sh[5]]
 Events(n) == {[src |-> "tracked", items |-> <<Item(a, 10 * n + 1)>>] : a \in Shapes}
@@ -19,11 +20,14 @@ Events(n) == {[src |-> "tracked", items |-> <<Item(a, 10 * n + 1)>>] : a \in Sha
                                     a \in Shapes \ {<<"F", FALSE, 0, TRUE, TRUE>>}, b \in Shapes \ {<<"F", FALSE, 0, TRUE, TRUE>>, <<"F", TRUE, 0, FALSE, FALSE>>}}
                    ELSE {})
 
-Init == /\ \E what \in {"best", "last"} : \E flip \in BOOLEAN : \E tol \in {"none", "zero", "pos"} :
-           par = [what |-> what, flip |-> flip, tolnone |-> (tol = "none"), tol |-> tol]
+\* srcs: how the tracker was given its sources - the set of the two tracked steps, None, or not at all (then it tracks nothing)
+Init == /\ \E what \in {"best", "last"} : \E flip \in BOOLEAN : \E tol \in {"none", "zero", "pos"} : \E srcs \in {"set", "none", "omitted", "empty"} :
+           /\ (srcs # "set" => tol = "pos" /\ ~flip)
+           /\ par = [what |-> what, flip |-> flip, tolnone |-> (tol = "none"), tol |-> tol, srcs |-> srcs]
         /\ hist = <<>> /\ kept = [id |-> 0, obj |-> 0]
 \* with tolerance None every result counts as feasible
-Eff(ev) == IF par.tolnone THEN [ev EXCEPT !.items = [j \in 1..Len(ev.items) |-> [ev.items[j] EXCEPT !.feas = TRUE]]] ELSE ev
+Eff(ev) == LET e == IF par.srcs = "set" THEN ev ELSE [ev EXCEPT !.src = "other"]
+           IN IF par.tolnone THEN [e EXCEPT !.items = [j \in 1..Len(e.items) |-> [e.items[j] EXCEPT !.feas = TRUE]]] ELSE e
 Next == /\ Len(hist) < L
         /\ \E ev \in Events(Len(hist) + 1) :
              /\ hist' = Append(hist, ev)
